@@ -3,8 +3,8 @@ import json, os
 from .lib.match import *
 from .lib.facts import VERIF, AnalysisBroken
 
-SELECT = r'^bluetoe::nrf52_details::|^bluetoe::details::security_manager_base::lesc_handle_pairing_public_key$'
-UNITS = lambda u: u in ('nrf_security_tool_box', 'nrf_nrf52', 'w_inst_sm')
+SELECT = r'^bluetoe::nrf52_details::|^bluetoe::details::security_manager_base::lesc_handle_pairing_public_key$|^uECC_valid_public_key$'
+UNITS = lambda u: u in ('nrf_security_tool_box', 'nrf_nrf52', 'w_inst_sm', 'c_uecc')
 NS = 'bluetoe::nrf52_details::'
 TB = NS + 'security_tool_box::'
 EXACT = ('formula',)   # verdicts computed from the meaning of the code (compiler / folding / symbolic terms): not gated by the golden structure
@@ -394,6 +394,73 @@ def run(chk, facts, tier):
             a = strip_casts(pk[0].args()[2])
             ok = elem_addr(a) is not None and is_name(elem_addr(a)[0], inp) and cval(elem_addr(a)[1]) == 1
         chk.instance('public-key-validated', fn, 'public_key_exchanged(.., &input[1], ..) only after is_valid_public_key(&input[1])', ok, '' if ok else 'a public key that is not a point of P-256 is used for the key agreement (invalid curve attack)', key='public key handler')
+
+    public_key_range(chk, facts)
+
+
+def public_key_range(chk, facts):
+    R = 'public-key-is-curve-point'
+    chk.rule(R, 'security_tool_box::is_valid_public_key returns uECC_valid_public_key(both coordinates, byte-reversed); uECC_valid_public_key returns non-zero only for a point that is not (0, 0), '
+             'whose coordinates are both field elements (curve_p > x and curve_p > y, strictly) and that satisfies y^2 == x^3 + ax + b', floor=2)
+    for fn in [f for f in facts.fns(NS + 'security_tool_box::is_valid_public_key')]:
+        rs = fn.returns()
+        v = deep(ret_value(rs[0])) if len(rs) == 1 else None
+        b = as_binop(v) if v is not None and not v.is_call() else None
+        if b and b[0] == '!=' and cval(b[2]) == 0:
+            v = deep(b[1])
+        ok = v is not None and v.is_call('uECC_valid_public_key') and len(v.args()) == 1
+        if ok:
+            a = strip_casts(v.args()[0])
+            key = strip_casts(base_object(a)).n if a.is_call('data') and base_object(a) is not None else a.n
+            rc = fn.body.calls('reverse_copy')
+            srcs = sorted((cval(elem_addr(c.args()[0])[1]), cval(elem_addr(c.args()[1])[1])) for c in rc if elem_addr(c.args()[0]) is not None and elem_addr(c.args()[1]) is not None and is_name(elem_addr(c.args()[0])[0], fn.params[0]['n']))
+            ok = key is not None and srcs == [(0, 32), (32, 64)] and all(mentions(c.args()[2], key) for c in rc)
+        chk.instance(R, fn, 'is_valid_public_key = uECC_valid_public_key(x reversed | y reversed)', ok, '' if ok else 'the received key is not handed to the validation completely', key='toolbox')
+    for fn in [f for f in facts.fns('uECC_valid_public_key')]:
+        pts = [d.n for d in fn.body.find(lambda n: n.k == 'VarDecl') if 'EccPoint' in (d.t or '')]
+        if not chk.require(len(pts) == 1, 'uECC_valid_public_key: local point not found'):
+            continue
+        pt = pts[0]
+        def coord(n, c):
+            n = strip_casts(n)
+            return n is not None and n.k == 'MemberExpr' and n.n == c and is_name(base_object(n), pt)
+        def below_p(ats, c):
+            for l, op, r in ats:
+                if isinstance(l, int):
+                    continue
+                x = strip_casts(l)
+                if not x.is_call('vli_cmp') or len(x.args()) != 2:
+                    continue
+                k = r if isinstance(r, int) else cval(r)
+                a0, a1 = x.args()
+                if is_name(a0, 'curve_p') and coord(a1, c) and ((op == '==' and k == 1) or (op == '>' and k == 0) or (op == '>=' and k == 1)):
+                    return True
+                if coord(a0, c) and is_name(a1, 'curve_p') and ((op == '==' and k == -1) or (op == '<' and k == 0) or (op == '<=' and k == -1)):
+                    return True
+            return False
+        pos = [r for r in fn.returns() if cval(ret_value(r)) != 0]
+        ok, why = len(pos) >= 1, 'no accepting return found'
+        for r in pos:
+            ats = guard_atoms(fn, r)
+            nz = any(not isinstance(l, int) and strip_casts(l).is_call('EccPoint_isZero') and op == '==' and (r2 == 0 or cval(r2) == 0) for l, op, r2 in ats)
+            if not nz:
+                ok, why = False, 'the point (0, 0) is not excluded'
+            for c in ('x', 'y'):
+                if not below_p(ats, c):
+                    ok, why = False, 'coordinate %s is accepted without curve_p > %s (strictly): a coordinate >= p is no field element, and p itself is taken for 0 by the curve equation' % (c, c)
+            v = ret_value(r)
+            b = as_binop(v)
+            eqn = False
+            if b and b[0] == '==' and cval(b[2]) == 0 and strip_casts(b[1]).is_call('vli_cmp'):
+                t1, t2 = [strip_casts(a).n for a in strip_casts(b[1]).args()]
+                sq = [c2 for c2 in fn.body.calls('vli_modSquare_fast') if strip_casts(c2.args()[0]).n in (t1, t2) and coord(c2.args()[1], 'y')]
+                xs = [c2 for c2 in fn.body.calls('curve_x_side') if strip_casts(c2.args()[0]).n in (t1, t2) and coord(c2.args()[1], 'x')]
+                eqn = len(sq) == 1 and len(xs) == 1 and strip_casts(sq[0].args()[0]).n != strip_casts(xs[0].args()[0]).n
+            elif cval(v) == 1:
+                eqn = any(not isinstance(l, int) and strip_casts(l).is_call('vli_cmp') and op == '==' and (r2 == 0 or cval(r2) == 0) for l, op, r2 in ats)
+            if not eqn:
+                ok, why = False, 'the accepting return is not the comparison y^2 == x^3 + ax + b of the received coordinates'
+        chk.instance(R, fn, 'uECC_valid_public_key accepts only (x, y) != 0 with p > x, p > y on the curve', ok, '' if ok else why, key='uecc')
 
 
 def primitives(chk, facts):
